@@ -12,9 +12,17 @@ package integration
 import (
 	"bytes"
 	"context"
+	"crypto/ecdsa"
+	"crypto/elliptic"
+	"crypto/rand"
+	"crypto/tls"
+	"crypto/x509"
+	"crypto/x509/pkix"
 	"encoding/json"
+	"encoding/pem"
 	"fmt"
 	"io"
+	"math/big"
 	"net"
 	"os"
 	"strings"
@@ -281,6 +289,9 @@ type vScenario struct {
 	desc    string
 	decoys  []string
 	bounds  []int // raw positions of the handler boundaries
+	nots    int   // matcher sets that contain a `not` next to a reading matcher
+	tls     bool  // the whole chain runs behind the real tls handler; the client speaks TLS
+	tls12   bool
 }
 
 var (
@@ -388,7 +399,12 @@ func vGenScenario(rng *vRng, idx int, port int) *vScenario {
 
 	// expectations
 	comp := "conn"
-	rank := map[string]int{"conn": 0, "subroute": 1, "throttle": 2, "proxy_protocol": 3, "tee": 4}
+	sc.tls = idx%5 == 4
+	sc.tls12 = rng.Bool()
+	rank := map[string]int{"conn": 0, "subroute": 1, "throttle": 2, "proxy_protocol": 3, "tee": 4, "tls": 5}
+	if sc.tls {
+		comp = "tls"
+	}
 	bump := func(c string) {
 		if rank[c] > rank[comp] {
 			comp = c
@@ -399,7 +415,11 @@ func vGenScenario(rng *vRng, idx int, port int) *vScenario {
 		case "consume":
 			sc.expect = append(sc.expect, vExpect{id: e.id, comp: comp, want: raw[e.rawpos : e.rawpos+e.n]})
 		case "tee":
-			sc.expect = append(sc.expect, vExpect{id: e.id + "-branch", comp: "tee-branch", want: raw[e.rawpos:], terminal: true})
+			bc := "tee-branch"
+			if sc.tls {
+				bc = "tls-tee-branch"
+			}
+			sc.expect = append(sc.expect, vExpect{id: e.id + "-branch", comp: bc, want: raw[e.rawpos:], terminal: true})
 			bump("tee")
 		case "pp":
 			bump("proxy_protocol")
@@ -444,7 +464,19 @@ func vGenScenario(rng *vRng, idx int, port int) *vScenario {
 		return lim
 	}
 	matcherK := func(pos, k int, yes bool) map[string]any {
-		return map[string]any{"verif_need": map[string]any{"sid": sc.sid, "k": k, "yes": yes, "peek": rng.Intn(3) == 0, "pos": pos}}
+		ms := map[string]any{"verif_need": map[string]any{"sid": sc.sid, "k": k, "yes": yes, "peek": rng.Intn(3) == 0, "pos": pos}}
+		if yes && rng.Intn(3) == 0 {
+			// matcher set { not { need k1: no } ; need k }: the real `not` matcher (its nested
+			// MatcherSet.Match) in the same set as a reading matcher. A set is a JSON object, so
+			// which of the two is evaluated first is decided by Go's map iteration at provisioning.
+			k1 := 0
+			if k > 0 {
+				k1 = rng.Intn(k + 1)
+			}
+			ms["not"] = []any{map[string]any{"verif_need": map[string]any{"sid": sc.sid, "k": k1, "yes": false, "peek": rng.Intn(3) == 0, "pos": pos}}}
+			sc.nots++
+		}
+		return ms
 	}
 	at := func(i int) (int, int) {
 		if i < len(sc.elems) {
@@ -518,6 +550,13 @@ func vGenScenario(rng *vRng, idx int, port int) *vScenario {
 		return append(routes, closeRoute())
 	}
 	sc.routes = build(0, 0)
+	if sc.tls {
+		// the real tls matcher and handler in front; everything generated above sees the plaintext
+		sc.routes = []any{map[string]any{
+			"match":  []any{map[string]any{"tls": map[string]any{}}},
+			"handle": []any{map[string]any{"handler": "tls"}, map[string]any{"handler": "subroute", "routes": sc.routes}},
+		}}
+	}
 
 	// segmentation of the client's writes
 	switch rng.Intn(4) {
@@ -545,7 +584,7 @@ func vGenScenario(rng *vRng, idx int, port int) *vScenario {
 	for _, e := range sc.elems {
 		ks = append(ks, e.kind)
 	}
-	sc.desc = fmt.Sprintf("chain=[%s] echo=%v raw=%d tail=%d seg=%s", strings.Join(ks, ","), sc.echo, len(raw), tail, sc.segName)
+	sc.desc = fmt.Sprintf("chain=[%s] echo=%v raw=%d tail=%d seg=%s tls=%v", strings.Join(ks, ","), sc.echo, len(raw), tail, sc.segName, sc.tls)
 	return sc
 }
 
@@ -569,6 +608,15 @@ func vRunClient(sc *vScenario) (echoed []byte, cerr error) {
 		return nil, err
 	}
 	defer c.Close()
+	_ = c.SetWriteDeadline(time.Now().Add(8 * time.Second))
+	pipe := c
+	if sc.tls {
+		cfg := &tls.Config{ServerName: "verif.test", InsecureSkipVerify: true}
+		if sc.tls12 {
+			cfg.MaxVersion = tls.VersionTLS12
+		}
+		c = tls.Client(pipe, cfg)
+	}
 	var wg sync.WaitGroup
 	var emu sync.Mutex
 	want := len(sc.raw) - sc.echoPos
@@ -595,7 +643,6 @@ func vRunClient(sc *vScenario) (echoed []byte, cerr error) {
 			}
 		}
 	}()
-	_ = c.SetWriteDeadline(time.Now().Add(8 * time.Second))
 	off := 0
 	for _, k := range sc.segs {
 		if off >= len(sc.raw) {
@@ -642,9 +689,35 @@ func vRunClient(sc *vScenario) (echoed []byte, cerr error) {
 			vSlowMu.Unlock()
 		}
 	}
-	c.Close()
+	_ = pipe.SetDeadline(time.Now().Add(3 * time.Second))
+	c.Close() // for TLS: close_notify, then the pipe
+	pipe.Close()
 	wg.Wait()
 	return echoed, cerr
+}
+
+// throw-away self-signed certificate for the tls app
+func vSelfSigned() (certPEM, keyPEM string, err error) {
+	key, err := ecdsa.GenerateKey(elliptic.P256(), rand.Reader)
+	if err != nil {
+		return "", "", err
+	}
+	tmpl := &x509.Certificate{
+		SerialNumber: big.NewInt(1), Subject: pkix.Name{CommonName: "verif.test"},
+		NotBefore: time.Now().Add(-time.Hour), NotAfter: time.Now().Add(24 * time.Hour),
+		KeyUsage: x509.KeyUsageDigitalSignature, ExtKeyUsage: []x509.ExtKeyUsage{x509.ExtKeyUsageServerAuth},
+		DNSNames: []string{"verif.test"},
+	}
+	der, err := x509.CreateCertificate(rand.Reader, tmpl, tmpl, &key.PublicKey, key)
+	if err != nil {
+		return "", "", err
+	}
+	kb, err := x509.MarshalECPrivateKey(key)
+	if err != nil {
+		return "", "", err
+	}
+	return string(pem.EncodeToMemory(&pem.Block{Type: "CERTIFICATE", Bytes: der})),
+		string(pem.EncodeToMemory(&pem.Block{Type: "EC PRIVATE KEY", Bytes: kb})), nil
 }
 
 func TestVerifC01E2E(t *testing.T) {
@@ -660,6 +733,10 @@ func TestVerifC01E2E(t *testing.T) {
 	os.Setenv("XDG_CONFIG_HOME", tmp)
 	os.Setenv("HOME", tmp)
 
+	certPEM, keyPEM, err := vSelfSigned()
+	if err != nil {
+		t.Fatal(err)
+	}
 	rng := vNewRng(vSeed())
 	n := vN(300)
 	batch := 50
@@ -681,7 +758,11 @@ func TestVerifC01E2E(t *testing.T) {
 		cfg := map[string]any{
 			"admin":   map[string]any{"disabled": true, "config": map[string]any{"persist": false}},
 			"logging": map[string]any{"logs": map[string]any{"default": map[string]any{"writer": map[string]any{"output": "discard"}}}},
-			"apps":    map[string]any{"layer4": map[string]any{"servers": servers}},
+			"apps": map[string]any{
+				"layer4": map[string]any{"servers": servers},
+				"tls": map[string]any{"certificates": map[string]any{"load_pem": []any{
+					map[string]any{"certificate": certPEM, "key": keyPEM, "tags": []string{"verif"}}}}},
+			},
 		}
 		raw, _ := json.Marshal(cfg)
 		if err := caddy.Load(raw, true); err != nil {
@@ -791,6 +872,12 @@ func TestVerifC01E2E(t *testing.T) {
 				ks = append(ks, e.kind)
 			}
 			cls := sc.segName + "/" + strings.Join(ks, "+")
+			if sc.nots > 0 {
+				cls += "/not"
+			}
+			if sc.tls {
+				cls += "/tls"
+			}
 			classes[cls]++
 			nt := len(sc.elems) > 0 && len(sc.raw) > 0
 			out.Case(fmt.Sprintf("CE2E %d %d", i+start, len(sc.raw)), cls, nt, map[string]any{"desc": sc.desc, "failed": failed})
